@@ -27,6 +27,21 @@ package decoder
 //@   loop 1 invariant [C07,claim] bSchema.MaxItems != 0 && itemCount < bSchema.MaxItems
 //@   loop 1 iter [C07] itemCount == old(itemCount) + ite(block.Type == blockType, 1, 0)
 
+// ---- C07: the prefix of a name or label being typed is the token under the cursor
+//@ contract decoder.nameTokenRangeAtPos (tokens, pos) (rng, err)
+//@   ensures [C07,name:identifier-under-the-cursor] implies(t.Range.ContainsPos(pos) && t.Type == hclsyntax.TokenIdent, err == nil && rng == t.Range)
+//@   ensures [C07,name:identifier-before-the-newline] implies(t.Range.ContainsPos(pos) && t.Type == hclsyntax.TokenNewline && i > 0 && tokens[i-1].Type == hclsyntax.TokenIdent, err == nil && rng == tokens[i-1].Range)
+//@ contract decoder.labelTokenRangeAtPos (tokens, pos) (rng, err)
+//@   ensures [C07,name:label-text-under-the-cursor] implies(t.Range.ContainsPos(pos) && (t.Type == hclsyntax.TokenQuotedLit || t.Type == hclsyntax.TokenIdent), err == nil && rng == t.Range)
+//@   ensures [C07,name:label-text-before-the-closing-quote] implies(err == nil && !(t.Type == hclsyntax.TokenQuotedLit || t.Type == hclsyntax.TokenIdent), t.Range.ContainsPos(pos) && t.Type == hclsyntax.TokenCQuote && i > 0 && tokens[i-1].Type == hclsyntax.TokenQuotedLit && rng == tokens[i-1].Range)
+
+// ---- C14: a block symbol is named by its type followed by every label, quoted.
+//@ contract (*decoder.BlockSymbol).Name (bs) (name)
+//@   requires bs != nil
+//@   ensures [C14,name:type-alone-without-labels] implies(len(bs.Labels) == 0, name == bs.Type)
+//@   loop 1 invariant implies(len(bs.Labels) == 0, name == bs.Type)
+//@   loop 1 iter [C14,name:every-label-appended-quoted] name == old(name) + (" " + quoted(label))
+
 // ---- byte recovery helpers (C01 totality, C20 clamp rule)
 //@ contract decoder.recoverLeftBytes (b, pos, f) (out)
 //@   requires 0 <= pos.Byte && pos.Byte <= len(b) && f != nil
@@ -48,6 +63,9 @@ package decoder
 //@ contract (*decoder.PathDecoder).SignatureAtPos$1 (node) (diags)
 //@   requires d != nil && d.pathCtx != nil && file != nil && 0 <= pos.Byte && pos.Byte <= len(file.Bytes)
 //@   loop 1 iter [C20] v.Range().Start.Byte <= pos.Byte && !(v.Range().ContainsPos(pos) || v.Range().End.Byte == pos.Byte)
+//@   loop 1 invariant [C20] (rangeindex == -1 && lastArgIdx == 0) || lastArgIdx == rangeindex
+//@   ensures [C20,name:no-clamp-without-a-variadic-parameter] implies(signature != old(signature) && foundActivePar && d.pathCtx.Functions[callOf(node).Name].VarParam == nil, int(signature.ActiveParameter) == lastArgIdx + 1 || (int(signature.ActiveParameter) == 0 && lastArgIdx == 0))
+//@   ensures [C20,name:stops-only-at-an-argument-behind-the-cursor] implies(signature != old(signature) && !foundActivePar && lastArgIdx + 1 < len(fNode.Args) && lastArgIdx > 0, fNode.Args[lastArgIdx + 1].Range().Start.Byte > pos.Byte)
 //@   ghost noComma after bytes.TrimRight#1 : string(callresult) != ","
 //@   ghost sawComma after bytes.TrimRight#1 : string(callresult) == ","
 //@   ensures [C20,name:argument-before-the-cursor] implies(signature != old(signature) && noComma && lastArgIdx < paramsLen, int(signature.ActiveParameter) == lastArgIdx)
@@ -72,6 +90,14 @@ package decoder
 //@   ensures [C12] result == nil || (result.Range.ContainsPos(pos) && len(result.Content.Value) > 0)
 //@ contract (decoder.Any).hoverOperatorExprAtPos (a, ctx, pos) (result, ok)
 //@   requires [C12] a.expr.Range().ContainsPos(pos)
+//@   ghost binaryChecked after convert.Convert#1 : true
+//@   ghost unaryChecked after convert.Convert#2 : true
+//@   assert before convert.Convert#1 : [C12,name:operator-result-converts-to-the-expected-type] arg0 == cty.UnknownVal(as(a.expr, "*hclsyntax.BinaryOpExpr").Op.Type) && arg1 == a.cons.OfType
+//@   assert before convert.Convert#2 : [C12,name:operator-result-converts-to-the-expected-type] arg0 == cty.UnknownVal(as(a.expr, "*hclsyntax.UnaryOpExpr").Op.Type) && arg1 == a.cons.OfType
+//@   assert before decoder.newExpression#1 : [C12,name:left-operand-against-the-first-parameter] binaryChecked && arg1 == as(a.expr, "*hclsyntax.BinaryOpExpr").LHS && as(arg2, "schema.AnyExpression").OfType == opFuncParams[0].Type
+//@   assert before decoder.newExpression#2 : [C12,name:right-operand-against-the-second-parameter] binaryChecked && arg1 == as(a.expr, "*hclsyntax.BinaryOpExpr").RHS && as(arg2, "schema.AnyExpression").OfType == opFuncParams[1].Type
+//@   assert before decoder.newExpression#3 : [C12,name:operand-against-the-parameter] unaryChecked && arg1 == as(a.expr, "*hclsyntax.UnaryOpExpr").Val && as(arg2, "schema.AnyExpression").OfType == opFuncParams[0].Type
+//@   assert before decoder.newExpression#4 : [C12,name:parenthesised-expression-against-the-same-constraint] arg1 == as(a.expr, "*hclsyntax.ParenthesesExpr").Expression && as(arg2, "schema.AnyExpression") == a.cons
 //@   ensures [C12] result == nil || (result.Range.ContainsPos(pos) && len(result.Content.Value) > 0)
 //@ contract (decoder.Any).hoverTemplateExprAtPos (a, ctx, pos) (result, ok)
 //@   requires [C12] a.expr.Range().ContainsPos(pos)
@@ -80,6 +106,11 @@ package decoder
 //@   requires [C12] a.expr.Range().ContainsPos(pos)
 //@   ensures [C12] result == nil || (result.Range.ContainsPos(pos) && len(result.Content.Value) > 0)
 //@ contract (decoder.Any).hoverForExprAtPos (a, ctx, pos) (result, ok)
+//@   ghost keyTyped after decoder.iterableKeyType#1 : true
+//@   ghost valTyped after decoder.iterableValueType#1 : true
+//@   assert before decoder.newExpression#2 : [C12,name:key-against-the-collection-key-type] keyTyped && as(arg2, "schema.AnyExpression").OfType == typ
+//@   assert before decoder.newExpression#3 : [C12,name:value-against-the-collection-element-type] valTyped && as(arg2, "schema.AnyExpression").OfType == typ
+//@   assert before decoder.newExpression#4 : [C12,name:condition-against-bool] as(arg2, "schema.AnyExpression").OfType == cty.Bool
 //@   requires [C12] a.expr.Range().ContainsPos(pos)
 //@   ensures [C12] result == nil || (result.Range.ContainsPos(pos) && len(result.Content.Value) > 0)
 //@ contract (decoder.Any).hoverIndexExprAtPos (a, ctx, pos) (result, ok)
@@ -97,12 +128,24 @@ package decoder
 
 // ---- C08: self.* is offered only inside a body that enables it: the flag is set on the context handed to
 // ---- value completion only, never on the context of nested bodies.
+//@ contract (*decoder.PathDecoder).CompletionAtPos (d, ctx, filename, pos) (result, err)
+//@   ghost outermost after (*hclsyntax.Body).OutermostBlockAtPos#1 : true
+//@   ghost outer after (*hclsyntax.Body).OutermostBlockAtPos#1 : callresult
+//@   assert before completionAtPos#1 : [C08,name:own-block-is-the-outermost-block] outermost && arg3 == ite(outer != nil, as(outer.Body, "*hclsyntax.Body").SrcRange, rootBody.SrcRange)
 //@ contract (*decoder.PathDecoder).completionAtPos (d, ctx, body, outerBodyRng, bodySchema, pos) (result, err)
+//@   ghost effective after schemahelper.MergeBlockBodySchemas#1 : true
+//@   assert before completionAtPos#1 : [C07,C16,name:nested-body-read-with-its-effective-schema] effective && arg4 == mergedSchema
+//@   assert before schemahelper.MergeBlockBodySchemas#1 : [C07,C16,name:effective-schema-of-this-block] arg1 == bodySchema.Blocks[block.Type]
 //@   requires [C08] !schema.ActiveSelfRefsFromContext(ctx)
 //@   assert before attrValueCompletionAtPos#1 : [C08] implies(schema.ActiveSelfRefsFromContext(arg1), bodySchema.Extensions != nil && bodySchema.Extensions.SelfRefs)
 //@   assert before attrValueCompletionAtPos#2 : [C08] implies(schema.ActiveSelfRefsFromContext(arg1), bodySchema.Extensions != nil && bodySchema.Extensions.SelfRefs)
 //@   assert before attrValueCompletionAtPos#3 : [C08] implies(schema.ActiveSelfRefsFromContext(arg1), bodySchema.Extensions != nil && bodySchema.Extensions.SelfRefs)
 //@   assert before attrValueCompletionAtPos#4 : [C08] implies(schema.ActiveSelfRefsFromContext(arg1), bodySchema.Extensions != nil && bodySchema.Extensions.SelfRefs)
+//@   assert before attrValueCompletionAtPos#1 : [C08,name:own-block-range-handed-on] arg4 == outerBodyRng
+//@   assert before attrValueCompletionAtPos#2 : [C08,name:own-block-range-handed-on] arg4 == outerBodyRng
+//@   assert before attrValueCompletionAtPos#3 : [C08,name:own-block-range-handed-on] arg4 == outerBodyRng
+//@   assert before attrValueCompletionAtPos#4 : [C08,name:own-block-range-handed-on] arg4 == outerBodyRng
+//@   assert before completionAtPos#1 : [C08,name:own-block-range-handed-on] arg3 == outerBodyRng
 //@   assert before bodySchemaCandidates#1 : [C07,C06] arg4.End == pos && arg4.Start.Byte <= pos.Byte && arg4.Start == attr.NameRange.Start
 //@   assert before bodySchemaCandidates#2 : [C07,C06] arg4.End == pos && arg4.Start.Byte <= pos.Byte && arg4.Start == block.TypeRange.Start
 
@@ -148,10 +191,20 @@ package decoder
 // ---- workspace query never fails (an unreadable path is skipped) and filters by name.
 //@ contract (*decoder.Decoder).Symbols (d, ctx, query) (result, err)
 //@   ensures [C14] err == nil
+//@ contract (*decoder.PathDecoder).hoverAtPos (d, ctx, body, bodySchema, pos) (result, err)
+//@   ghost effective after schemahelper.MergeBlockBodySchemas#1 : true
+//@   assert before hoverAtPos#1 : [C12,C16,name:nested-body-read-with-its-effective-schema] effective && arg3 == mergedSchema
+//@   assert before schemahelper.MergeBlockBodySchemas#1 : [C12,C16,name:effective-schema-of-this-block] arg1 == bodySchema.Blocks[block.Type]
+//@ contract (*decoder.PathDecoder).symbolsInFile (d, filename) (result, err)
+//@   requires d != nil && d.pathCtx != nil
+//@   ensures [C14,name:every-file-of-the-path-has-symbols] implies(haskey(d.pathCtx.Files, filename), err == nil)
 //@ contract (*decoder.PathDecoder).symbols (d, query) (result, err)
 //@   loop 2 iter [C14] (len(symbols) == old(len(symbols)) + 1) == (query == "" || strings.Contains(symbol.Name(), query))
 //@   loop 2 iter [C14] len(symbols) == old(len(symbols)) || len(symbols) == old(len(symbols)) + 1
 //@ contract (*decoder.PathDecoder).symbolsForBody (d, body, bodySchema) (result)
+//@   ghost effective after schemahelper.MergeBlockBodySchemas#1 : true
+//@   ghost effSchema after schemahelper.MergeBlockBodySchemas#1 : mergedSchema
+//@   assert before symbolsForBody#1 : [C14,C16,name:nested-body-read-with-its-effective-schema] implies(bodySchema != nil && haskey(bodySchema.Blocks, block.Type), effective && arg2 == effSchema)
 //@   loop 1 iter [C14] len(symbols) == old(len(symbols)) + 1
 //@   loop 1 iter [C14] typeis(symbols[len(symbols)-1], "*decoder.AttributeSymbol") && as(symbols[len(symbols)-1], "*decoder.AttributeSymbol").AttrName == name && as(symbols[len(symbols)-1], "*decoder.AttributeSymbol").rng == attr.Range
 //@   loop 2 iter [C14] len(symbols) == old(len(symbols)) + 1
@@ -173,6 +226,9 @@ package decoder
 //@   ensures [C09,C11,C03,C04,C05] implies(tctx != nil, fresh(result) && fresh(result.ParentAddress) && len(result.ParentAddress) == len(tctx.ParentAddress) && cap(result.ParentAddress) == len(result.ParentAddress))
 //@   ensures [C09,C11,C03,C04,C05] implies(tctx != nil, forall(j, 0, len(tctx.ParentAddress), result.ParentAddress[j] == tctx.ParentAddress[j]))
 //@   ensures [C09,C11,C03,C04,C05] implies(tctx != nil, fresh(result.ParentLocalAddress) && len(result.ParentLocalAddress) == len(tctx.ParentLocalAddress) && freshOrNil(result.TargetableFromRangePtr))
+//@   ensures [C09,C11,C03,C04,C05] implies(tctx != nil, (tctx.ParentLocalAddress == nil) == (result.ParentLocalAddress == nil))
+//@   ensures [C09,C11,C03,C04,C05] implies(tctx != nil, cap(result.ParentLocalAddress) == len(result.ParentLocalAddress))
+//@   ensures [C09,C11,C03,C04,C05] implies(tctx != nil, forall(j, 0, len(tctx.ParentLocalAddress), result.ParentLocalAddress[j] == tctx.ParentLocalAddress[j]))
 //@   ensures [C09,C11,C03,C04,C05] implies(tctx != nil, result.FriendlyName == tctx.FriendlyName && result.ScopeId == tctx.ScopeId && result.AsExprType == tctx.AsExprType && result.AsReference == tctx.AsReference)
 //@   ensures [C09,C11] implies(tctx != nil, (tctx.TargetableFromRangePtr == nil) == (result.TargetableFromRangePtr == nil) && implies(tctx.TargetableFromRangePtr != nil, *result.TargetableFromRangePtr == *tctx.TargetableFromRangePtr))
 //@ contract decoder.resolveBlockAddress (block, blockSchema) (result, ok)
@@ -189,6 +245,8 @@ package decoder
 //@ spec extendsByOne(child lang.Address, parent lang.Address) bool = len(child) == len(parent) + 1 && forall(j, 0, len(parent), child[j] == parent[j])
 //@ contract (decoder.List).ReferenceTargets (list, ctx, targetCtx) (result)
 //@   assert before invoke:ReferenceTargets#2 : [C09] extendsByOne(arg1.ParentAddress, targetCtx.ParentAddress) && typeis(arg1.ParentAddress[len(targetCtx.ParentAddress)], "lang.IndexStep") && as(arg1.ParentAddress[len(targetCtx.ParentAddress)], "lang.IndexStep").Key == cty.NumberIntVal(int64(i))
+//@   assert before invoke:ReferenceTargets#2 : [C09,name:local-step-is-the-element-position] implies(targetCtx.ParentLocalAddress != nil, len(arg1.ParentLocalAddress) == len(targetCtx.ParentLocalAddress) + 1 && typeis(arg1.ParentLocalAddress[len(targetCtx.ParentLocalAddress)], "lang.IndexStep") && as(arg1.ParentLocalAddress[len(targetCtx.ParentLocalAddress)], "lang.IndexStep").Key == cty.NumberIntVal(int64(i)))
+//@   assert before invoke:ReferenceTargets#2 : [C09,name:no-local-address-without-a-parent-one] implies(targetCtx.ParentLocalAddress == nil, arg1.ParentLocalAddress == nil)
 
 // ---- C10: origins. Two origins are merged only if they are the same reference written at the same place;
 // ---- the self.* gate handed to the origin constructor is the one the body enables.
@@ -215,6 +273,9 @@ package decoder
 //@ contract (decoder.Reference).SemanticTokens (ref, ctx) (result)
 //@   ensures [C13] implies(typeis(ref.expr, "*hclsyntax.ScopeTraversalExpr"), len(result) <= 2 * len(as(ref.expr, "*hclsyntax.ScopeTraversalExpr").Traversal))
 //@ contract (*decoder.PathDecoder).tokensForBody (d, ctx, body, bodySchema, parentModifiers) (result)
+//@   ghost effective after schemahelper.MergeBlockBodySchemas#1 : true
+//@   assert before tokensForBody#1 : [C13,C16,name:nested-body-read-with-its-effective-schema] effective && arg3 == mergedSchema
+//@   assert before schemahelper.MergeBlockBodySchemas#1 : [C13,C16,name:effective-schema-of-this-block] arg1 == bodySchema.Blocks[block.Type]
 //@   requires body != nil
 //@   loop 1 iter [C13] implies(!haskey(bodySchema.Attributes, name) && !(bodySchema.Extensions != nil && name == "count" && bodySchema.Extensions.Count) && !(bodySchema.Extensions != nil && name == "for_each" && bodySchema.Extensions.ForEach) && bodySchema.AnyAttribute == nil, len(tokens) == old(len(tokens)))
 //@   loop 3 iter [C13] implies(i + 1 > len(blockSchema.Labels), len(tokens) == old(len(tokens)))
@@ -227,6 +288,9 @@ package decoder
 //@ contract (*decoder.PathDecoder).referenceOriginsInBody (d, body, bodySchema) (origins, impliedOrigins)
 //@   loop 1 invariant [C10,claim] implies(schema.ActiveSelfRefsFromContext(ctx), bodySchema.Extensions != nil && bodySchema.Extensions.SelfRefs)
 //@   assert before invoke:ReferenceOrigins#1 : [C10] implies(schema.ActiveSelfRefsFromContext(arg0), bodySchema.Extensions != nil && bodySchema.Extensions.SelfRefs)
+//@   ghost effective after schemahelper.MergeBlockBodySchemas#1 : true
+//@   assert before (*decoder.PathDecoder).referenceOriginsInBody#1 : [C10,C16,name:nested-body-read-with-its-effective-schema] effective && arg2 == mergedSchema
+//@   assert before schemahelper.MergeBlockBodySchemas#1 : [C10,C16,name:effective-schema-of-this-block] arg0 == block.Block && arg1 == bodySchema.Blocks[block.Type]
 
 // ---- C16/C02: documentation links are attached to exactly the dependency keys that selected the body: one
 // ---- link per label key, on the label that key names (by its Index, not by its position in the key list),
@@ -248,6 +312,10 @@ package decoder
 //@ contract (decoder.Reference).CompletionAtPos (ref, ctx, pos) (result)
 //@   assert before (reference.Targets).MatchWalk#1 : [C02,C06] arg5.Start.Byte <= arg5.End.Byte && arg5.End.Byte == pos.Byte
 //@   assert before (reference.Targets).MatchWalk#2 : [C02,C06] arg5.Start.Byte <= arg5.End.Byte && arg5.Start.Byte <= pos.Byte && pos.Byte <= arg5.End.Byte
+//@   ghost outermost after (*hclsyntax.Body).OutermostBlockAtPos#1 : true
+//@   ghost outer after (*hclsyntax.Body).OutermostBlockAtPos#1 : callresult
+//@   assert before (reference.Targets).MatchWalk#1 : [C08,name:own-block-is-the-outermost-block] outermost && arg4 == ite(outer != nil, as(outer.Body, "*hclsyntax.Body").SrcRange, rootBody.SrcRange)
+//@   assert before (reference.Targets).MatchWalk#2 : [C08,name:own-block-is-the-outermost-block] outermost && arg4 == ite(outer != nil, as(outer.Body, "*hclsyntax.Body").SrcRange, rootBody.SrcRange)
 
 // ---- order of results (C10, C13, C14): the functions that promise source order return the very slice
 // ---- their last sort call sorted (the comparators are under contract above).
@@ -297,6 +365,8 @@ package decoder
 //@   requires [C12] tuple.expr.Range().ContainsPos(pos)
 //@   ensures [C12] result == nil || (result.Range.ContainsPos(pos) && len(result.Content.Value) > 0)
 //@   assert before decoder.newExpression#1 : [C12] arg1 == elemExpr && arg2 == tuple.cons.Elems[i]
+//@   loop 1 invariant [C12] forall(j, 0, rangeindex + 1, implies(j < len(tuple.cons.Elems), !(eType.Exprs[j].Range().Start.Byte <= pos.Byte && pos.Byte < eType.Exprs[j].Range().End.Byte)))
+//@   ensures [C12,name:whole-tuple-only-when-no-known-element-is-under-the-cursor] implies(len(content) >= 0, forall(j, 0, len(eType.Exprs), implies(j < len(tuple.cons.Elems), !(eType.Exprs[j].Range().Start.Byte <= pos.Byte && pos.Byte < eType.Exprs[j].Range().End.Byte))))
 //@ contract (decoder.Tuple).SemanticTokens (tuple, ctx) (result)
 //@   assert before decoder.newExpression#1 : [C13] arg1 == elemExpr && arg2 == tuple.cons.Elems[i]
 //@ contract (decoder.Tuple).ReferenceOrigins (tuple, ctx) (result)
@@ -310,9 +380,13 @@ package decoder
 // ---- definition range are the item's own extent and its key as written (quotes included).
 //@ contract (decoder.Map).ReferenceTargets (m, ctx, targetCtx) (result)
 //@   assert before invoke:ReferenceTargets#2 : [C09] extendsByOne(arg1.ParentAddress, targetCtx.ParentAddress) && typeis(arg1.ParentAddress[len(targetCtx.ParentAddress)], "lang.IndexStep") && as(arg1.ParentAddress[len(targetCtx.ParentAddress)], "lang.IndexStep").Key == cty.StringVal(keyName)
+//@   assert before invoke:ReferenceTargets#2 : [C09,name:local-step-is-the-element-position] implies(targetCtx.ParentLocalAddress != nil, len(arg1.ParentLocalAddress) == len(targetCtx.ParentLocalAddress) + 1 && typeis(arg1.ParentLocalAddress[len(targetCtx.ParentLocalAddress)], "lang.IndexStep") && as(arg1.ParentLocalAddress[len(targetCtx.ParentLocalAddress)], "lang.IndexStep").Key == cty.StringVal(keyName))
+//@   assert before invoke:ReferenceTargets#2 : [C09,name:no-local-address-without-a-parent-one] implies(targetCtx.ParentLocalAddress == nil, arg1.ParentLocalAddress == nil)
 //@   assert before invoke:ReferenceTargets#2 : [C09,C02] arg1.ParentDefRangePtr != nil && *arg1.ParentDefRangePtr == item.Key.Range() && arg1.ParentRangePtr != nil && *arg1.ParentRangePtr == hcl.RangeBetween(item.Key.Range(), item.Value.Range())
 //@ contract (decoder.Object).collectAttributeTargets (obj, ctx, targetCtx, declaredAttrs) (result)
 //@   assert before decoder.newExpression#1 : [C09] arg2 == obj.cons.Attributes[name].Constraint && implies(attrDeclared, arg1 == declaredAttrs[name].Value)
+//@   assert before invoke:ReferenceTargets#2 : [C09,name:step-is-the-written-key] ite(hclsyntax.ValidIdentifier(name), typeis(arg1.ParentAddress[len(targetCtx.ParentAddress)], "lang.AttrStep") && as(arg1.ParentAddress[len(targetCtx.ParentAddress)], "lang.AttrStep").Name == name, typeis(arg1.ParentAddress[len(targetCtx.ParentAddress)], "lang.IndexStep") && as(arg1.ParentAddress[len(targetCtx.ParentAddress)], "lang.IndexStep").Key == cty.StringVal(name))
+//@   assert before invoke:ReferenceTargets#2 : [C09,name:local-step-is-the-written-key] implies(targetCtx.ParentLocalAddress != nil, len(arg1.ParentLocalAddress) == len(targetCtx.ParentLocalAddress) + 1 && ite(hclsyntax.ValidIdentifier(name), typeis(arg1.ParentLocalAddress[len(targetCtx.ParentLocalAddress)], "lang.AttrStep") && as(arg1.ParentLocalAddress[len(targetCtx.ParentLocalAddress)], "lang.AttrStep").Name == name, typeis(arg1.ParentLocalAddress[len(targetCtx.ParentLocalAddress)], "lang.IndexStep") && as(arg1.ParentLocalAddress[len(targetCtx.ParentLocalAddress)], "lang.IndexStep").Key == cty.StringVal(name)))
 //@   assert before invoke:ReferenceTargets#2 : [C09] extendsByOne(arg1.ParentAddress, targetCtx.ParentAddress)
 //@   assert before invoke:ReferenceTargets#2 : [C09,C02] implies(attrDeclared, arg1.ParentDefRangePtr != nil && *arg1.ParentDefRangePtr == item.Key.Range() && arg1.ParentRangePtr != nil && *arg1.ParentRangePtr == hcl.RangeBetween(item.Key.Range(), item.Value.Range()))
 
@@ -333,7 +407,18 @@ package decoder
 // ---- the expression it is (ghosts are true only if their call site was reached).
 //@ spec forOf(e hcl.Expression) *hclsyntax.ForExpr = as(e, "*hclsyntax.ForExpr")
 //@ spec condOf(e hcl.Expression) *hclsyntax.ConditionalExpr = as(e, "*hclsyntax.ConditionalExpr")
+//@ contract (decoder.Any).completeForExprAtPos (a, ctx, pos) (result, ok)
+//@   ghost keyTyped after decoder.iterableKeyType#1 : true
+//@   ghost valTyped after decoder.iterableValueType#1 : true
+//@   assert before decoder.newExpression#2 : [C08,name:key-against-the-collection-key-type] keyTyped && as(arg2, "schema.AnyExpression").OfType == typ
+//@   assert before decoder.newExpression#3 : [C08,name:value-against-the-collection-element-type] valTyped && as(arg2, "schema.AnyExpression").OfType == typ
+//@   assert before decoder.newExpression#4 : [C08,name:condition-against-bool] as(arg2, "schema.AnyExpression").OfType == cty.Bool
 //@ contract (decoder.Any).refOriginsForForExpr (a, ctx) (result, handled)
+//@   ghost keyTyped after decoder.iterableKeyType#1 : true
+//@   ghost valTyped after decoder.iterableValueType#1 : true
+//@   assert before decoder.newExpression#2 : [C10,name:key-against-the-collection-key-type] keyTyped && as(arg2, "schema.AnyExpression").OfType == typ
+//@   assert before decoder.newExpression#3 : [C10,name:value-against-the-collection-element-type] valTyped && as(arg2, "schema.AnyExpression").OfType == typ
+//@   assert before decoder.newExpression#4 : [C10,name:condition-against-bool] as(arg2, "schema.AnyExpression").OfType == cty.Bool
 //@   ghost sawColl after decoder.newExpression#1 : true
 //@   ghost sawKey after decoder.newExpression#2 : true
 //@   ghost sawVal after decoder.newExpression#3 : true
@@ -344,6 +429,11 @@ package decoder
 //@   assert before decoder.newExpression#4 : [C10] arg1 == eType.CondExpr
 //@   ensures [C10] implies(handled && typeis(a.expr, "*hclsyntax.ForExpr"), sawColl && sawVal && (forOf(a.expr).KeyExpr == nil || sawKey) && (forOf(a.expr).CondExpr == nil || sawCond))
 //@ contract (decoder.Any).semanticTokensForForExpr (a, ctx) (result, handled)
+//@   ghost keyTyped after decoder.iterableKeyType#1 : true
+//@   ghost valTyped after decoder.iterableValueType#1 : true
+//@   assert before decoder.newExpression#2 : [C13,name:key-against-the-collection-key-type] keyTyped && as(arg2, "schema.AnyExpression").OfType == typ
+//@   assert before decoder.newExpression#3 : [C13,name:value-against-the-collection-element-type] valTyped && as(arg2, "schema.AnyExpression").OfType == typ
+//@   assert before decoder.newExpression#4 : [C13,name:condition-against-bool] as(arg2, "schema.AnyExpression").OfType == cty.Bool
 //@   ghost sawColl after decoder.newExpression#1 : true
 //@   ghost sawKey after decoder.newExpression#2 : true
 //@   ghost sawVal after decoder.newExpression#3 : true
@@ -378,6 +468,9 @@ package decoder
 
 // ---- C09: count.index and each.* exist only in bodies whose schema enables the corresponding extension.
 //@ contract (*decoder.PathDecoder).decodeReferenceTargetsForBody (d, body, parentBlock, bodySchema) (result)
+//@   ghost effective after schemahelper.MergeBlockBodySchemas#1 : true
+//@   assert before decodeReferenceTargetsForBody#1 : [C09,C16,name:nested-body-read-with-its-effective-schema] effective && arg3 == mergedSchema
+//@   assert before schemahelper.MergeBlockBodySchemas#1 : [C09,C16,name:effective-schema-of-this-block] arg1 == bodySchema.Blocks[blk.Type]
 //@   assert before decoder.countIndexReferenceTarget#1 : [C09] bodySchema.Extensions != nil && bodySchema.Extensions.Count && attr.Name == "count"
 //@   assert before decoder.forEachReferenceTargets#1 : [C09] bodySchema.Extensions != nil && bodySchema.Extensions.ForEach && attr.Name == "for_each"
 
@@ -424,6 +517,24 @@ package decoder
 //@   ensures [C14] implies(err == nil, outlined)
 // ---- C13: a keyword token is given to the bare keyword only (a one-step traversal), and parenthesised map
 // ---- keys are read as expressions only where the constraint allows interpolated keys.
+// ---- C12/C13: a keyword or a primitive type name is a traversal of exactly one step (`local.foo` is not the
+// ---- keyword `local`, `string.x` is not the type `string`).
+//@ contract (decoder.Keyword).HoverAtPos (kw, ctx, pos) (result)
+//@   requires [C12] kw.expr.Range().ContainsPos(pos)
+//@   ensures [C12] result == nil || (result.Range.ContainsPos(pos) && len(result.Content.Value) > 0)
+//@   ensures [C12,name:a-keyword-is-one-word] implies(result != nil, typeis(kw.expr, "*hclsyntax.ScopeTraversalExpr") && len(as(kw.expr, "*hclsyntax.ScopeTraversalExpr").Traversal) == 1 && as(kw.expr, "*hclsyntax.ScopeTraversalExpr").Traversal.RootName() == kw.cons.Keyword)
+//@ contract (decoder.TypeDeclaration).HoverAtPos (td, ctx, pos) (result)
+//@   requires [C12] td.expr.Range().ContainsPos(pos)
+//@   ensures [C12] result == nil || (result.Range.ContainsPos(pos) && len(result.Content.Value) > 0)
+//@   ensures [C12,name:a-type-name-is-one-word] implies(result != nil && typeis(td.expr, "*hclsyntax.ScopeTraversalExpr"), len(as(td.expr, "*hclsyntax.ScopeTraversalExpr").Traversal) == 1)
+//@ contract (decoder.TypeDeclaration).SemanticTokens (td, ctx) (result)
+//@   ensures [C13,name:a-type-name-is-one-word] implies(len(result) > 0 && typeis(td.expr, "*hclsyntax.ScopeTraversalExpr"), len(as(td.expr, "*hclsyntax.ScopeTraversalExpr").Traversal) == 1 && isPrimitiveTypeDeclaration(as(td.expr, "*hclsyntax.ScopeTraversalExpr").Traversal.RootName()))
+// ---- C13: inside a literal-value constraint an element is a token only if it is the value declared at its
+// ---- position (list), a declared member (set), the value declared under its key (map).
+//@ contract (decoder.LiteralValue).SemanticTokens (lv, ctx) (result)
+//@   assert before decoder.newExpression#1 : [C13,name:list-element-is-the-declared-value] as(arg2, "schema.LiteralValue").Value == values[i] && values[i].RawEquals(val)
+//@   assert before decoder.newExpression#2 : [C13,name:set-element-is-a-declared-member] values.Has(val) && as(arg2, "schema.LiteralValue").Value == val
+//@   assert before decoder.newExpression#4 : [C13,name:map-value-is-the-value-declared-under-its-key] haskey(values, keyStr) && values[keyStr].RawEquals(val) && as(arg2, "schema.LiteralValue").Value == val
 //@ contract (decoder.Keyword).SemanticTokens (kw, ctx) (result)
 //@   ensures [C13] implies(len(result) > 0, typeis(kw.expr, "*hclsyntax.ScopeTraversalExpr") && len(as(kw.expr, "*hclsyntax.ScopeTraversalExpr").Traversal) == 1)
 //@ contract (decoder.Map).SemanticTokens (m, ctx) (result)
@@ -549,11 +660,57 @@ package decoder
 //@   assert before (decoder.List).ReferenceOrigins#1 : [C10] elemTypeOf(arg0.cons.Elem) == typ.ElementType() && arg0.expr == a.expr
 //@   assert before (decoder.Set).ReferenceOrigins#1 : [C10] elemTypeOf(arg0.cons.Elem) == typ.ElementType() && arg0.expr == a.expr
 //@   assert before (decoder.Map).ReferenceOrigins#1 : [C10] elemTypeOf(arg0.cons.Elem) == typ.ElementType() && arg0.expr == a.expr
+// ---- C10/C13: every item of a map is read, key (when it is an expression) and value, the value against the
+// ---- element constraint - whatever the key is.
+//@ contract (decoder.Map).ReferenceOrigins (m, ctx) (result)
+//@   ghost valueRead after decoder.newExpression#2 : true
+//@   loop 1 iter [C10,name:value-of-every-item-is-read] valueRead
+//@   assert before decoder.newExpression#1 : [C10] as(arg1, "*hclsyntax.ParenthesesExpr") == parensExpr && as(arg2, "schema.AnyExpression").OfType == cty.String
+//@   assert before decoder.newExpression#2 : [C10] arg1 == item.Value && arg2 == m.cons.Elem
 // ---- C09: only attributes whose constraint yields a type are part of a block's data type; the target of a
 // ---- for-expression tuple has a range (the parent's, or the expression's own); validation walks every file.
+//@ contract decoder.referenceAsTypeOf (block, rngPtr, bSchema, addr) (result)
+//@   requires block != nil && bSchema != nil && bSchema.Address != nil
+//@   ensures [C09,name:one-target-whatever-the-body-holds] len(result) == 1 && result[0].RangePtr == rngPtr
+//@   ensures [C09,name:scope-of-the-schema] result[0].ScopeId == old(bSchema.Address.ScopeId)
+//@   ensures [C09,name:address-as-resolved] len(result[0].Addr) == len(addr) && forall(j, 0, len(addr), result[0].Addr[j] == addr[j])
+//@   ensures [C09,C02] result[0].DefRangePtr != nil && *result[0].DefRangePtr == block.DefRange
+// ---- C10/C13: operators. The operator is interpreted only where its result converts to the expected type;
+// ---- each operand is read against the operator's own parameter type, a parenthesised expression against
+// ---- the constraint of the parentheses.
+//@ contract (decoder.Any).refOriginsForOperatorExpr (a, ctx) (result, ok)
+//@   ghost binaryChecked after convert.Convert#1 : true
+//@   ghost unaryChecked after convert.Convert#2 : true
+//@   assert before convert.Convert#1 : [C10,name:operator-result-converts-to-the-expected-type] arg0 == cty.UnknownVal(as(a.expr, "*hclsyntax.BinaryOpExpr").Op.Type) && arg1 == a.cons.OfType
+//@   assert before convert.Convert#2 : [C10,name:operator-result-converts-to-the-expected-type] arg0 == cty.UnknownVal(as(a.expr, "*hclsyntax.UnaryOpExpr").Op.Type) && arg1 == a.cons.OfType
+//@   assert before decoder.newExpression#1 : [C10,name:left-operand-against-the-first-parameter] binaryChecked && arg1 == as(a.expr, "*hclsyntax.BinaryOpExpr").LHS && as(arg2, "schema.AnyExpression").OfType == opFuncParams[0].Type
+//@   assert before decoder.newExpression#2 : [C10,name:right-operand-against-the-second-parameter] binaryChecked && arg1 == as(a.expr, "*hclsyntax.BinaryOpExpr").RHS && as(arg2, "schema.AnyExpression").OfType == opFuncParams[1].Type
+//@   assert before decoder.newExpression#3 : [C10,name:operand-against-the-parameter] unaryChecked && arg1 == as(a.expr, "*hclsyntax.UnaryOpExpr").Val && as(arg2, "schema.AnyExpression").OfType == opFuncParams[0].Type
+//@   assert before decoder.newExpression#4 : [C10,name:parenthesised-expression-against-the-same-constraint] arg1 == as(a.expr, "*hclsyntax.ParenthesesExpr").Expression && as(arg2, "schema.AnyExpression") == a.cons
+//@ contract (decoder.Any).semanticTokensForOperatorExpr (a, ctx) (result, ok)
+//@   ghost binaryChecked after convert.Convert#1 : true
+//@   ghost unaryChecked after convert.Convert#2 : true
+//@   assert before convert.Convert#1 : [C13,name:operator-result-converts-to-the-expected-type] arg0 == cty.UnknownVal(as(a.expr, "*hclsyntax.BinaryOpExpr").Op.Type) && arg1 == a.cons.OfType
+//@   assert before convert.Convert#2 : [C13,name:operator-result-converts-to-the-expected-type] arg0 == cty.UnknownVal(as(a.expr, "*hclsyntax.UnaryOpExpr").Op.Type) && arg1 == a.cons.OfType
+//@   assert before decoder.newExpression#1 : [C13,name:left-operand-against-the-first-parameter] binaryChecked && arg1 == as(a.expr, "*hclsyntax.BinaryOpExpr").LHS && as(arg2, "schema.AnyExpression").OfType == opFuncParams[0].Type
+//@   assert before decoder.newExpression#2 : [C13,name:right-operand-against-the-second-parameter] binaryChecked && arg1 == as(a.expr, "*hclsyntax.BinaryOpExpr").RHS && as(arg2, "schema.AnyExpression").OfType == opFuncParams[1].Type
+//@   assert before decoder.newExpression#3 : [C13,name:operand-against-the-parameter] unaryChecked && arg1 == as(a.expr, "*hclsyntax.UnaryOpExpr").Val && as(arg2, "schema.AnyExpression").OfType == opFuncParams[0].Type
+//@   assert before decoder.newExpression#4 : [C13,name:parenthesised-expression-against-the-same-constraint] arg1 == as(a.expr, "*hclsyntax.ParenthesesExpr").Expression && as(arg2, "schema.AnyExpression") == a.cons
+//@ contract (decoder.Any).completeOperatorExprAtPos (a, ctx, pos) (result, ok)
+//@   ghost binaryChecked after convert.Convert#1 : true
+//@   ghost unaryChecked after convert.Convert#2 : true
+//@   assert before convert.Convert#1 : [C08,name:operator-result-converts-to-the-expected-type] arg0 == cty.UnknownVal(as(a.expr, "*hclsyntax.BinaryOpExpr").Op.Type) && arg1 == a.cons.OfType
+//@   assert before convert.Convert#2 : [C08,name:operator-result-converts-to-the-expected-type] arg0 == cty.UnknownVal(as(a.expr, "*hclsyntax.UnaryOpExpr").Op.Type) && arg1 == a.cons.OfType
+//@   assert before decoder.newExpression#1 : [C08,name:left-operand-against-the-first-parameter] binaryChecked && arg1 == as(a.expr, "*hclsyntax.BinaryOpExpr").LHS && as(arg2, "schema.AnyExpression").OfType == opFuncParams[0].Type
+//@   assert before decoder.newExpression#2 : [C08,name:right-operand-against-the-second-parameter] binaryChecked && arg1 == as(a.expr, "*hclsyntax.BinaryOpExpr").RHS && as(arg2, "schema.AnyExpression").OfType == opFuncParams[1].Type
+//@   assert before decoder.newExpression#3 : [C08,name:operand-against-the-parameter] unaryChecked && arg1 == as(a.expr, "*hclsyntax.UnaryOpExpr").Val && as(arg2, "schema.AnyExpression").OfType == opFuncParams[0].Type
+//@   assert before decoder.newExpression#4 : [C08,name:operand-against-the-parameter] unaryChecked && arg1 == as(a.expr, "*hclsyntax.UnaryOpExpr").Val && as(arg2, "schema.AnyExpression").OfType == opFuncParams[0].Type
+//@   assert before decoder.newExpression#5 : [C08,name:parenthesised-expression-against-the-same-constraint] arg1 == as(a.expr, "*hclsyntax.ParenthesesExpr").Expression && as(arg2, "schema.AnyExpression") == a.cons
 //@ contract (decoder.Tuple).collectTupleElemTargets (tuple, ctx, targetCtx, declaredElems) (result)
 //@   assert before decoder.newExpression#1 : [C09] arg2 == tuple.cons.Elems[i] && implies(len(declaredElems) >= i + 1, arg1 == declaredElems[i])
 //@   assert before invoke:ReferenceTargets#2 : [C09] extendsByOne(arg1.ParentAddress, targetCtx.ParentAddress) && typeis(arg1.ParentAddress[len(targetCtx.ParentAddress)], "lang.IndexStep") && as(arg1.ParentAddress[len(targetCtx.ParentAddress)], "lang.IndexStep").Key == cty.NumberIntVal(int64(i))
+//@   assert before invoke:ReferenceTargets#2 : [C09,name:local-step-is-the-element-position] implies(targetCtx.ParentLocalAddress != nil, len(arg1.ParentLocalAddress) == len(targetCtx.ParentLocalAddress) + 1 && typeis(arg1.ParentLocalAddress[len(targetCtx.ParentLocalAddress)], "lang.IndexStep") && as(arg1.ParentLocalAddress[len(targetCtx.ParentLocalAddress)], "lang.IndexStep").Key == cty.NumberIntVal(int64(i)))
+//@   assert before invoke:ReferenceTargets#2 : [C09,name:no-local-address-without-a-parent-one] implies(targetCtx.ParentLocalAddress == nil, arg1.ParentLocalAddress == nil)
 //@ contract (decoder.Tuple).ReferenceTargets (tuple, ctx, targetCtx) (result)
 //@   ensures [C09,C02] implies(typeis(tuple.expr, "*hclsyntax.ForExpr") && targetCtx != nil, len(result) == 1 && result[0].RangePtr != nil)
 //@ contract (*decoder.PathDecoder).Validate (d, ctx) (result, err)
